@@ -284,6 +284,25 @@ def _is_local(fn, name):
 
 
 CALLS = {}      # callee simple name -> recorded calls (filled by analyse_tree)
+CLASSES = {}    # class name -> dict(bases=[...], module_level_instance=bool, cached_factory=bool, instantiated_in_functions=int)   (filled by analyse_tree)
+OPERAND_BASE_WORDS = ("Vector", "Momentum", "Azimuthal", "Longitudinal", "Temporal", "Coordinates", "Planar", "Spatial", "Lorentz", "ndarray", "Array", "Record", "NamedTuple", "tuple")
+
+
+def per_call_helper_object(site):
+    """a write through `self` is call-local when the class is a private helper (not a vector / coordinate / array class) whose instances are only ever
+    created inside functions - never at module level and never by a caching factory - so that each call works on its own fresh instance"""
+    parts = site["function"].split(".")
+    if len(parts) < 2 or site.get("root") != "self":
+        return None
+    cls = parts[-2]
+    info = CLASSES.get(cls)
+    if info is None or not cls.startswith("_") or cls.startswith("__"):
+        return None
+    if any(w in b for b in info["bases"] for w in OPERAND_BASE_WORDS):
+        return None
+    if info["module_level_instance"] or info["cached_factory"] or info["instantiated_in_functions"] == 0:
+        return None
+    return f"state of a per-call helper object: private class {cls} is instantiated only inside functions ({info['instantiated_in_functions']} sites), never at module level or by a caching factory"
 
 
 def consumes_callers_own_container(site):
@@ -312,6 +331,7 @@ def consumes_callers_own_container(site):
 def analyse_tree(src_root):
     """all flagged sites in src/vector, plus the census of functions analysed"""
     CALLS.clear()
+    CLASSES.clear()
     sites, nfun, nfiles = [], 0, 0
     for dp, dn, fns in os.walk(src_root):
         for fn in sorted(fns):
@@ -321,6 +341,9 @@ def analyse_tree(src_root):
             rel = os.path.relpath(path, os.path.dirname(src_root))
             tree = ast.parse(open(path).read())
             nfiles += 1
+            for cd in ast.walk(tree):
+                if isinstance(cd, ast.ClassDef):
+                    CLASSES.setdefault(cd.name, dict(bases=[ast.unparse(b) for b in cd.bases], module_level_instance=False, cached_factory=False, instantiated_in_functions=0))
             mutables = set()
             for st in tree.body:
                 if isinstance(st, (ast.Assign, ast.AnnAssign)) and st.value is not None:
@@ -348,4 +371,23 @@ def analyse_tree(src_root):
                         stack.append((ch, prefix + ch.name + "."))
                     elif isinstance(ch, (ast.If, ast.Try, ast.With, ast.For, ast.While)):
                         stack.append((ch, prefix))
+    # where are the classes instantiated?
+    for dp, dn, fns in os.walk(src_root):
+        for fn in sorted(fns):
+            if not fn.endswith(".py") or fn.startswith("_version"):
+                continue
+            tree = ast.parse(open(os.path.join(dp, fn)).read())
+            for st in tree.body:
+                for node in ([st.value] if isinstance(st, (ast.Assign, ast.AnnAssign, ast.Expr)) and getattr(st, "value", None) is not None else []):
+                    for c in ast.walk(node):
+                        if isinstance(c, ast.Call) and isinstance(c.func, ast.Name) and c.func.id in CLASSES:
+                            CLASSES[c.func.id]["module_level_instance"] = True
+            for f in ast.walk(tree):
+                if isinstance(f, (ast.FunctionDef, ast.AsyncFunctionDef, ast.Lambda)):
+                    cached = isinstance(f, ast.FunctionDef) and any(("cache" in ast.unparse(d)) for d in f.decorator_list)
+                    for c in ast.walk(f):
+                        if isinstance(c, ast.Call) and isinstance(c.func, ast.Name) and c.func.id in CLASSES:
+                            CLASSES[c.func.id]["instantiated_in_functions"] += 1
+                            if cached:
+                                CLASSES[c.func.id]["cached_factory"] = True
     return sites, nfun, nfiles
